@@ -62,6 +62,10 @@ impl Profile {
     pub fn free() -> Profile {
         Profile { name: "free".into(), bang: Bang::Free, primes: true, ..Profile::surjective() }
     }
+    /// relations with up to 5 columns (more index orders per relation), `!` stratified
+    pub fn medium() -> Profile {
+        Profile { name: "medium".into(), max_arity: 5, max_preds: 3, max_funcs: 2, bang: Bang::Stratified, max_fanout: 4, ..Profile::surjective() }
+    }
     pub fn with_enums() -> Profile {
         Profile { name: "with_enums".into(), max_enums: 2, bang: Bang::Stratified, ..Profile::surjective() }
     }
@@ -89,6 +93,7 @@ impl Profile {
             "stratified" => Profile::stratified(),
             "free" => Profile::free(),
             "with_enums" => Profile::with_enums(),
+            "medium" => Profile::medium(),
             "wide" => Profile::wide(),
             _ => return None,
         })
@@ -293,7 +298,23 @@ impl<'a, 'b> RuleGen<'a, 'b> {
             0 => {
                 let r = preds[self.t.pick(preds.len())];
                 let tys: Vec<TypeId> = self.p.rels[r].cols.clone();
-                let args = tys.iter().map(|&ty| self.if_term(ctx, ty, 0, true, true)).collect();
+                let mut args: Vec<Term> = Vec::new();
+                for (k, &ty) in tys.iter().enumerate() {
+                    // boosted: the same variable at several positions of one atom (diagonal indices,
+                    // also with three occurrences / two pairs)
+                    let earlier: Vec<String> = (0..k)
+                        .filter(|&i| tys[i] == ty)
+                        .filter_map(|i| if let Term::Var(v) = &args[i] { Some(v.clone()) } else { None })
+                        .collect();
+                    if !earlier.is_empty() && self.t.chance(1, 4) {
+                        let v = earlier[self.t.pick(earlier.len())].clone();
+                        if let Some(&id) = ctx.vars.iter().rev().find(|&&id| self.vars[id].name == v) {
+                            args.push(self.use_var(id));
+                            continue;
+                        }
+                    }
+                    args.push(self.if_term(ctx, ty, 0, true, true));
+                }
                 IfAtom::Pred(r, args)
             }
             1 => {
@@ -456,11 +477,41 @@ impl<'a, 'b> RuleGen<'a, 'b> {
                             .into_iter()
                             .filter(|&f| !self.p.is_enum(ty) || matches!(self.p.rels[f].kind, RelKind::Ctor(_)))
                             .collect();
-                        let lhs = if !fs.is_empty() && self.t.chance(1, 2) {
+                        let lhs = if !fs.is_empty() && self.t.chance(1, 3) {
                             let f = fs[self.t.pick(fs.len())];
                             self.new_app(ctx, f)
                         } else {
-                            self.then_term(ctx, ty)
+                            // prefer an equation between two different terms (a real merge)
+                            let mut l = self.then_term(ctx, ty);
+                            if l.as_ref() == Some(&rhs) {
+                                let snapshot2: Vec<usize> = self.vars.iter().map(|v| v.count).collect();
+                                let l2 = self.then_term(ctx, ty);
+                                if l2.as_ref() != Some(&rhs) && l2.is_some() {
+                                    // undo the count of the first draw
+                                    if let Some(first) = &l {
+                                        let mut names = Vec::new();
+                                        fn vars_of(t: &Term, out: &mut Vec<String>) {
+                                            match t {
+                                                Term::Var(v) => out.push(v.clone()),
+                                                Term::App(_, a) => a.iter().for_each(|x| vars_of(x, out)),
+                                                Term::Wild => {}
+                                            }
+                                        }
+                                        vars_of(first, &mut names);
+                                        for n in names {
+                                            if let Some(&id) = ctx.vars.iter().rev().find(|&&id| self.vars[id].name == n) {
+                                                self.vars[id].count = self.vars[id].count.saturating_sub(1);
+                                            }
+                                        }
+                                    }
+                                    l = l2;
+                                } else {
+                                    for (v, c) in self.vars.iter_mut().zip(snapshot2) {
+                                        v.count = c;
+                                    }
+                                }
+                            }
+                            l
                         };
                         match lhs {
                             None => None,
